@@ -40,7 +40,7 @@ def run(ctx):
         for k, v in r["named"].items():
             named[k] = named.get(k, 0) + v
     for need in ("answered-pod", "answered-nothing"):
-        if named.get(need, 0) == 0:
+        if named.get(need, 0) == 0 and not (ctx.violations or locals().get("fails")):  # no vacuity verdict once something was found
             raise vlib.MachineryError("vacuity: %s never reached" % need)
     ctx.cov["named_situations"] = named
     ctx.cov["exhaustive"] = True
